@@ -5,7 +5,43 @@ sys.path.insert(0, os.path.dirname(os.path.abspath(__file__)))
 import vf, swprop
 
 
+def plugin_cancel(ck, rec):
+    """PluginCancel.tla: the plug-in loops after the walk, every cancellation position, replayed through scalibr.Scan."""
+    if rec is None:
+        s = vf.tlc("PluginCancel", "PluginCancel-sanity.cfg", workers=2, collect=False, timeout=120)
+        if s.violated != "SanityLateCancel":
+            raise vf.NotAVerdict("PluginCancel sanity invariant not violated")
+        r = vf.require_ok(vf.tlc("PluginCancel", "PluginCancel.cfg", workers=2, timeout=300), "PluginCancel.cfg")
+        ck.add_tlc("PluginCancel.cfg", r, "CONSTANTS MaxS = 3 MaxD = 3")
+        cases = r.cases
+    else:
+        cases = [rec["case"]]
+    obs = vf.run_harness("vscan", "plugincancel", cases)
+    if len(obs) != len(cases):
+        raise vf.NotAVerdict("plugincancel harness returned %d of %d" % (len(obs), len(cases)))
+    for o in obs:
+        c = cases[o["i"]]
+        mm = []
+        if o["panic"]:
+            mm.append("panic in Scan: " + o["panic"])
+        if o["ran"] != c["expect"]["ran"]:
+            mm.append("plug-ins invoked %s, specification says %s" % (o["ran"], c["expect"]["ran"]))
+        if o["status"] not in c["expect"]["status"]:
+            mm.append("scan status %s (%s), specification says %s" % (o["status"], o.get("reason", ""), "/".join(c["expect"]["status"])))
+        if mm:
+            ck.violation("C10 plug-in pipeline [%d standalone, %d detectors, context cancelled inside plug-in #%d]: %s" % (c["ns"], c["nd"], c["cpos"], "; ".join(mm)),
+                         {"family": "plugincancel", "case": c, "observed": o, "mismatch": mm})
+    ck.count(len(obs))
+    ck.cov["distinct_nontrivial"] += sum(1 for c in cases if c["cpos"] >= 0)
+    ck.cov["traces_validated_against_impl"] += len(obs)
+    ck.cov["plugin_cancel_scenarios"] = len(obs)
+
+
 def extra(ck, rec):
+    if rec is None or rec.get("family") == "plugincancel":
+        plugin_cancel(ck, rec)
+        if rec is not None:
+            return
     try:
         import c10_img
     except ImportError:
